@@ -139,6 +139,36 @@ def p_history(x):
     return None
 
 
+def p_independent(x):
+    """a paragraph built from a mapping, from pairs or from another paragraph is its own object: operations on one
+    are never observed through the other"""
+    _route, init, ops = x
+    d = {k: v for k, v in init}
+    for how in ('mapping', 'paragraph'):
+        try:
+            src = dict(d) if how == 'mapping' else debcon.Debian822(dict(d))
+            snap_src = dict(src.items())
+            obj = debcon.Debian822(src)
+            snap_obj = obj.to_dict()
+            run_ops(obj, ops)
+            if dict(src.items()) != snap_src:
+                return 'operations %r on a paragraph built from a %s change the %s it was built from' % (ops, how, how)
+            obj2 = debcon.Debian822(src)
+            if obj2.to_dict() != snap_obj:
+                return 'a second paragraph built from the same %s differs after operations on the first' % how
+            seen = obj2.to_dict()
+            if how == 'mapping':
+                src['zz-new'] = '1'
+                src.pop(next(iter(src)))
+            else:
+                run_ops(src, ops + [['set', 'zz-new', '1']])
+            if obj2.to_dict() != seen:
+                return 'changing the %s afterwards changes the paragraph built from it' % how
+        except Exception as e:  # noqa
+            return 'raises %s (%s)' % (type(e).__name__, how)
+    return None
+
+
 def p_normalize(n):
     outs = set(debcon.normalize_control_field_name(c) for c in casings(n))
     if len(outs) != 1:
@@ -240,6 +270,9 @@ def run(ctx):
     ctx.exhaustive.append('all %d operation sequences of length <= %d over %d atomic operations on keys A/a/b' % (len(small), ctx.n(4, 5), len(atoms)))
     fails = ctx.prop('prop:history', hist + small + [('file', '', [['len'], ['todict']]), ('text', '', [['len']])], p_history)
     ctx.stream('prop:history')['history_length_histogram'] = lens
+    fails += ctx.prop('prop:independent-objects', [h for h in hist if h[0] in ('mapping', 'pairs')][:ctx.n(2500, 30000)] +
+                      [('pairs', [['A', '1'], ['b', '2']], [list(o) for o in s_]) for n_ in range(1, 3) for s_ in itertools.product(atoms, repeat=n_)],
+                      p_independent)
     names = CONTROL_NAMES + ['a', 'a-b-c', 'x--y', 'md5sum-sha1', 'SHA256-x', 'foo-MD5SUM', '-', 'A1-b2', 'X-3dfx-Support',
                              'Original_maintainer', 'a1b-c2d', 'x.y-z', "o'neil-x", 'sha1sum', '3com-driver']
     ctx.exhaustive.append('every known control field name in four casings through normalize_control_field_name')
